@@ -10,6 +10,8 @@ import (
 	"encoding/json"
 	"fmt"
 	"os"
+	"path/filepath"
+	"sort"
 	"strconv"
 	"strings"
 
@@ -71,22 +73,23 @@ type readL struct {
 }
 
 type traceT struct {
-	Sched   []evT
-	Labels  []int64
-	Rets    [][]int64
-	Final   [][]int64
-	Adds    []addL
-	Reads   []readL
-	Stalled bool // some operation spanned more than one bucket length of clock
-	Overlap bool // a recorder was active on a slot while another goroutine was rolling that slot over
-	Spin    int  // failed TryLocks
-	SpinBad bool // a TryLock failed although no goroutine was inside the critical section
-	Resets  int
-	Behind  int
-	Clock   int64
-	Steps   int
-	Timeout bool
-	Post    []int64 // sequential CountWithTime(clock, k) after the schedule, k = 0..4
+	Sched       []evT
+	Labels      []int64
+	Rets        [][]int64
+	Final       [][]int64
+	Adds        []addL
+	Reads       []readL
+	Stalled     bool // some operation spanned more than one bucket length of clock
+	Overlap     bool // a recorder was active on a slot while another goroutine was rolling that slot over
+	Spin        int  // failed TryLocks
+	SpinBad     bool // a TryLock failed although no goroutine was inside the critical section
+	MutexBad    bool // a goroutine entered the critical section while another one was inside it
+	Resets      int
+	Behind      int
+	Clock       int64
+	Steps       int
+	Timeout     bool
+	Post        []int64 // sequential CountWithTime(clock, k) after the schedule, k = 0..4
 	intervalObs int64
 	maxActive   int
 	// enumeration support: alternatives that were enabled at each position of Sched
@@ -94,14 +97,14 @@ type traceT struct {
 }
 
 type thr struct {
-	at      int
-	op      int
-	now     int64
-	active  bool
-	zeroed  int // number of 111 yields passed inside the current reset
-	inCS    bool
-	rolling bool // decided to roll the slot over (parked at 103 or inside the critical section)
-	futile  int
+	at          int
+	op          int
+	now         int64
+	active      bool
+	zeroed      int // number of 111 yields passed inside the current reset
+	inCS        bool
+	rolling     bool // decided to roll the slot over (parked at 103 or inside the critical section)
+	futile      int
 	duringReset bool
 }
 
@@ -110,20 +113,20 @@ const (
 )
 
 type runner struct {
-	c     caseT
-	arr   *stat.BucketLeapArray
-	s     *sched.S
-	clk   int64
-	th    []*thr
-	rets  [][]int64
-	tr    *traceT
+	c      caseT
+	arr    *stat.BucketLeapArray
+	s      *sched.S
+	clk    int64
+	th     []*thr
+	rets   [][]int64
+	tr     *traceT
 	holder int
 }
 
-func (r *runner) idx(now int64) int   { return int((now / r.c.BL) % int64(r.c.N)) }
-func (r *runner) bs(now int64) int64  { return now - now%r.c.BL }
-func (r *runner) interval() int64     { return int64(r.c.N) * r.c.BL }
-func (r *runner) done(i int) bool     { return r.s.IsDone(i) }
+func (r *runner) idx(now int64) int  { return int((now / r.c.BL) % int64(r.c.N)) }
+func (r *runner) bs(now int64) int64 { return now - now%r.c.BL }
+func (r *runner) interval() int64    { return int64(r.c.N) * r.c.BL }
+func (r *runner) done(i int) bool    { return r.s.IsDone(i) }
 func (r *runner) allDone() bool {
 	for i := range r.th {
 		if !r.done(i) {
@@ -243,6 +246,11 @@ func (r *runner) run(i int) int {
 	t.at = l
 	switch {
 	case at == 103 && inCSLabel(l):
+		for j, u := range r.th {
+			if j != i && u.inCS {
+				r.tr.MutexBad = true
+			}
+		}
 		t.inCS, t.rolling = true, true
 		t.zeroed = 0
 		r.holder = i
@@ -433,6 +441,9 @@ func monitor(c caseT, tr *traceT, rep *emit.Report) {
 	}
 	if tr.SpinBad {
 		fail("termination", "trylock-failed-with-no-holder", "a TryLock failed while no goroutine was inside the critical section")
+	}
+	if tr.MutexBad {
+		fail("mutual_exclusion", "two-goroutines-inside-reset", "a goroutine entered ResetBucketTo while another goroutine was inside it (updateLock does not serialise resets)")
 	}
 	// no invention: every returned total <= sum of the amounts whose add had executed
 	for _, rd := range tr.Reads {
@@ -625,6 +636,57 @@ func d7Case(id int, parkAt int) caseT {
 	return c
 }
 
+// corpus: regression witnesses kept as files (corpus/C09/*.json, field "case"); ids corpusBase+i in
+// file-name order. The directory is looked up from the working directory and from the executable upwards.
+func corpusDir() string {
+	var starts []string
+	if wd, err := os.Getwd(); err == nil {
+		starts = append(starts, wd)
+	}
+	if ex, err := os.Executable(); err == nil {
+		starts = append(starts, filepath.Dir(ex))
+	}
+	for _, d := range starts {
+		for i := 0; i < 6; i++ {
+			c := filepath.Join(d, "corpus", "C09")
+			if st, err := os.Stat(c); err == nil && st.IsDir() {
+				return c
+			}
+			d = filepath.Dir(d)
+		}
+	}
+	return ""
+}
+
+func loadCorpus() []caseT {
+	dir := corpusDir()
+	if dir == "" {
+		return nil
+	}
+	files, _ := filepath.Glob(filepath.Join(dir, "*.json"))
+	sort.Strings(files)
+	var out []caseT
+	for _, f := range files {
+		b, err := os.ReadFile(f)
+		if err != nil {
+			continue
+		}
+		var w struct {
+			Case caseT `json:"case"`
+		}
+		if json.Unmarshal(b, &w) != nil || len(w.Case.Progs) == 0 || w.Case.N <= 0 || w.Case.BL <= 0 {
+			fmt.Fprintln(os.Stderr, "corpus file ignored (malformed):", f)
+			continue
+		}
+		c := w.Case
+		c.ID = corpusBase + len(out)
+		c.Mode = "script"
+		c.Note = "corpus " + filepath.Base(f)
+		out = append(out, c)
+	}
+	return out
+}
+
 // small configurations whose interleavings are enumerated completely (thorough tier)
 func enumConfigs() []caseT {
 	rec := func(ev int, amt int64) opT { return opT{Kind: "rec", Ev: ev, Amt: amt} }
@@ -721,8 +783,11 @@ func main() {
 			fmt.Println(string(out))
 		}
 	}
+	corpus := loadCorpus()
 	caseByID := func(id int) (caseT, chooser) {
 		switch {
+		case id >= corpusBase && id < corpusBase+len(corpus):
+			return corpus[id-corpusBase], nil
 		case id < d7Base:
 			c := genRandom(root.Fork(uint64(id)), id)
 			return c, randomChooser(root.Fork(uint64(id) + 1<<40))
@@ -750,6 +815,10 @@ func main() {
 	for p := 0; p <= 9; p++ {
 		runID(d7Base+p, !a.Search)
 	}
+	for i := range corpus {
+		runID(corpusBase+i, !a.Search)
+	}
+	rep.Count("corpus_cases", len(corpus))
 	for id := 0; id < nMon; id++ {
 		runID(id, id < nCorr)
 	}
